@@ -16,7 +16,18 @@ def run_case(case):
     rec["payload"] = payload
     try:
         pre = case.get("prehistory")
-        if pre:
+        if pre and pre.get("style") == "resettings":
+            # same data, other settings first: compile, then only re-assign version / level / mask (no add_data, no clear)
+            q = qrcode.QRCode(version=pre["version"], error_correction=pre["level"], mask_pattern=pre["mask"])
+            for d, opt in case["calls"]:
+                q.add_data(d, optimize=opt)
+            try:
+                q.make()
+            except Exception:  # noqa
+                pass
+            q.version = case["version"]; q.error_correction = case["level"]; q.mask_pattern = case["mask"]
+            rec["segs"] = [(s.mode, bytes(s.data)) for s in q.data_list]
+        elif pre:
             # "every symbol" includes symbols compiled by an object that compiled something else before: compile under other
             # settings and data first, then re-configure the same object by clear() + attribute assignment
             q = qrcode.QRCode(version=pre["version"], error_correction=pre["level"], mask_pattern=pre["mask"])
@@ -32,9 +43,10 @@ def run_case(case):
             q.version = case["version"]; q.error_correction = case["level"]; q.mask_pattern = case["mask"]
         else:
             q = qrcode.QRCode(version=case["version"], error_correction=case["level"], mask_pattern=case["mask"])
-        for d, opt in case["calls"]:
-            q.add_data(d, optimize=opt)
-        rec["segs"] = [(s.mode, bytes(s.data)) for s in q.data_list]
+        if not (pre and pre.get("style") == "resettings"):
+            for d, opt in case["calls"]:
+                q.add_data(d, optimize=opt)
+            rec["segs"] = [(s.mode, bytes(s.data)) for s in q.data_list]
     except Exception as e:  # noqa
         rec["setup_error"] = err_name(e)
         return rec
@@ -156,6 +168,11 @@ def std_cases(tier, seed, caps=None, cross_all=False):
         c["prehistory"] = dict(version=rnd.choice([None, 1, 2, 5, 7, 10]), level=rnd.randrange(4), mask=rnd.choice([None, 0, 5]),
                                data=gens.payload(rnd, rnd.choice(["lower", "digits", "bytes"]), rnd.randrange(1, 30)), clear=rnd.random() < 0.7)
         c["tag"] = "random-reused-object"
+    for c in rc[1::5]:
+        if c["version"] is None:
+            continue        # (with version None the fitted version of the first compile is a legitimate starting point)
+        c["prehistory"] = dict(style="resettings", version=rnd.choice([1, 2, 5, 7, 10]), level=rnd.randrange(4), mask=rnd.choice([None, 0, 5]), data=b"")
+        c["tag"] = "random-resettings"
     cases += rc
     cc = gens.class_crossing_cases(rnd, caps)
     cases += cc if (tier == "thorough" or cross_all) else rnd.sample(cc, 120)
